@@ -261,5 +261,19 @@ def oracle(ctx):
             continue
         for f in wiring_failures(printed):
             res.oracle_failures.append(dict(op='e2e', input=files, impl_output=dict(exit=rc, services=names), oracle_expectation=f))
+    # membership is decided by the *effective* Pod= / StartWithPod= (C15: the last assignment, drop-ins merged in name order after the
+    # main file): a container whose file assigns them several times generates the same services when the later assignments are moved
+    # into drop-ins — in one or two search directories, whatever the order of the directories
+    import filespell
+    hist = []
+    for _ in range(120 if ctx.thorough else 40):
+        lines = ['[Container]', 'Image=localhost/i']
+        for _k in range(rnd.randint(2, 5)):
+            lines.append(rnd.choice(['Pod=p.pod', 'Pod=q.pod', 'Pod=', 'StartWithPod=no', 'StartWithPod=yes', 'StartWithPod=', 'StartWithPod=false']))
+        if not any(l.startswith('Pod=') for l in lines):
+            lines.append('Pod=p.pod')
+        hist.append({'p.pod': '[Pod]\n', 'q.pod': '[Pod]\nPodName=other\n', 'c.container': '\n'.join(lines) + '\n',
+                     'd.container': '[Container]\nImage=localhost/j\nPod=q.pod\n'})
+    filespell.compare(ctx, hist, ['two', 'two-dirs', 'two-dirs-rev', 'dropin'], 'C09 histories of Pod= / StartWithPod= in drop-ins')
     res.samples.append(dict(kind='e2e-tree', files=trees_[0][1], symlinks=trees_[0][2]))
     ctx.log(f'oracle (whole runs with drop-ins): {len(trees_)} trees, {len(res.oracle_failures)} failures in total')
